@@ -136,11 +136,14 @@ class C28(Prop):
         "|coord| <= 1000, whenever the projected discriminant is non-zero "
         "(C28_3d_point_branch_correct[_int]_partial); on the finite box {-1,0,1}^3 the whole "
         "function equals an exact reference intersection outside EXACTLY the two open defect "
-        "families (C28_3d_box_partial, exhaustive vm_compute over 27^4 quadruples); a returned "
-        "single point always lies on segment 1 and within tol of segment 2.  The model is tied "
+        "families (C28_3d_box_partial, exhaustive vm_compute over 27^4 quadruples); parallel "
+        "lines that are not the same line give None, exactly (any rationals, "
+        "C28_3d_parallel_offline_correct_partial); a returned single point always lies on "
+        "segment 1 and within tol of segment 2.  The model is tied "
         "to /repo on every run: Coq recomputes both functions on every generated segment pair "
         "and compares classification, points (1e-9) and raised errors with the "
-        "implementation's output.")
+        "implementation's output — including runs with large non-default tolerances and "
+        "quarter-integer coordinates, where the tolerance tests themselves decide.")
     level_note = (
         "Trusted: Coq kernel + vm_compute; harness generator/emitter; floats are converted "
         "exactly to Q and compared within 1e-9*(1+|x|) inside Coq; floating-point rounding "
@@ -151,7 +154,9 @@ class C28(Prop):
         "parallel branch beyond the box {-1,0,1}^3; behaviour inside the tolerance bands.")
     technique = ("Coq proof (exact-arithmetic correctness of the transcribed algorithm, nsatz/nra/"
                  "field over Q; integer-separation lemmas) + vm_compute execution correspondence")
-    rule = ("integer segment pairs: uniform samples from {-2..2}^2 / {-2..2}^3 and larger "
+    rule = ("14% of the cases: a random tolerance in [0.003, 0.6] with coordinates scaled by 1, "
+            "1/2 or 1/4 (in-band behaviour, tie only); otherwise "
+            "integer segment pairs: uniform samples from {-2..2}^2 / {-2..2}^3 and larger "
             "boxes, plus directed streams (crossings through rational points, T-junctions, "
             "collinear overlap/containment/touching, shared endpoints, parallel "
             "non-collinear, 3-D lines whose xy-projection is degenerate, zero-length "
@@ -161,7 +166,8 @@ class C28(Prop):
                "Proofs/C28_sqrt.v over R for tol >= 0)",
                "np.argsort on the four parameters is modelled as a stable sort; ties only "
                "occur between identical points, so the returned columns do not depend on it"]
-    assumptions = ["integer coordinates (|coord| <= 1000 in the theorem; <= 40 in the tie)",
+    assumptions = ["integer coordinates (|coord| <= 1000 in the theorem; <= 40 in the tie); the "
+                   "exact-intersection oracle is silent for the large-tolerance cases",
                    "segments of non-zero length (zero length: the raised error is modelled "
                    "and tied, not part of the property)"]
 
